@@ -4,6 +4,7 @@
 #include "vf_main.hpp"
 #include "ref.hpp"
 #include "mcmap.hpp"
+#include "hep/mc-mpi.hpp"
 
 typedef VF_T T;
 using namespace vf;
@@ -163,7 +164,8 @@ struct RunState
     std::size_t iteration = 0;
     std::size_t zero_iteration = ~std::size_t(0);
     T power = T(2);
-    std::vector<T> prev_weights;
+    std::vector<T> prev_weights, prev_data;
+    std::vector<std::string> pending;    // judged on the main thread (rank threads only record)
 };
 RunState* g_run = 0;
 
@@ -212,6 +214,10 @@ template <typename Chk> struct RunCallback
         {
             for (std::size_t i = 0; ok && i < n; ++i)
                 if (r->prev_weights[i] == T() && used[i] != T()) { viol("in-run:disabled-channel-re-enabled", J(inf2).u("channel", i)); break; }
+            // the weights this iteration was sampled with are the documented refinement of the previous result
+            bool j2;
+            if (ok) judge(r->prev_weights, r->prev_data, minw, beta, used, J(inf2).s("where", "results()[k].channel_weights() vs refinement of result k-1").fv("weights", r->prev_weights).fv("data", r->prev_data), j2);
+            count("used_weights_judged_against_previous_result");
         }
         // the weights the checkpoint proposes for the next iteration
         std::vector<T> next = chk.channel_weights();
@@ -219,9 +225,11 @@ template <typename Chk> struct RunCallback
         if (ok) judge(used, res.adjustment_data(), minw, beta, next, J(inf2).s("where", "chkpt.channel_weights()").fv("weights", used).fv("data", res.adjustment_data()), judged);
         if (r->iteration == r->zero_iteration) count("zero_iterations");
         r->prev_weights = used;
+        r->prev_data = res.adjustment_data();
         ++r->iteration;
         return true;
     }
+    bool operator()(MPI_Comm, Chk const& chk) { return (*this)(chk); }
 };
 
 void in_run(Rng& rng)
@@ -248,7 +256,22 @@ void in_run(Rng& rng)
     chk_t chk(eng, user, minw, beta);
     RunCallback<chk_t> cb = {&r, info, minw, beta, user};
     g_run = &r;
-    hep::multi_channel(hep::make_multi_channel_integrand<T>(run_f, dims, map, dims, n), std::vector<std::size_t>(iters, calls), chk, cb);
+    int P = rng.below(3) == 0 ? (int)rng.range(2, 4) : 1;
+    if (r.zero_iteration != ~std::size_t(0)) P = 1;      // the zero iteration is keyed on a shared counter
+    if (P == 1) hep::multi_channel(hep::make_multi_channel_integrand<T>(run_f, dims, map, dims, n), std::vector<std::size_t>(iters, calls), chk, cb);
+    else
+    {
+        // shim MPI: rank 0 carries the judging callback, the other ranks a callback that only continues
+        struct Go { bool operator()(MPI_Comm, chk_t const&) const { return true; } };
+        VfWorld world;
+        vf_mpi_run(world, P, rng.next(), [&](int rank, MPI_Comm comm) {
+            auto integrand = hep::make_multi_channel_integrand<T>(run_f, dims, map, dims, n);
+            if (rank == 0) hep::mpi_multi_channel(comm, integrand, std::vector<std::size_t>(iters, calls), chk, cb);
+            else hep::mpi_multi_channel(comm, integrand, std::vector<std::size_t>(iters, calls), chk, Go());
+        });
+        if (world.aborted) viol("in-run:mpi-collective-mismatch", J(info).s("reason", world.abort_reason));
+        count("mpi_runs");
+    }
     g_run = 0;
     if (r.iteration != iters) viol("harness:callback-count", J(info).u("seen", r.iteration));
     ++ctx().evaluations;
